@@ -75,6 +75,7 @@ type Srv struct {
 	ID     int
 	Cfg    *config.Config
 	cancel context.CancelFunc
+	tsoOnly bool
 }
 
 // SeedClusterID stores the cluster id so that every server uses Root.
@@ -99,8 +100,44 @@ func New(st *fakeetcd.Store, id int, mod func(*config.Config)) (*Srv, error) {
 	return &Srv{Server: s, ID: id, Cfg: cfg, cancel: cancel}, nil
 }
 
+// NewTSO creates a TSO-only server (server.VerifNewTSOServer): no storage, no raft cluster.
+func NewTSO(st *fakeetcd.Store, id int, mod func(*config.Config)) (*Srv, error) {
+	vrand.ResetDet()
+	cfg := cachedConfig(id)
+	if mod != nil {
+		mod(cfg)
+	}
+	ctx, cancel := context.WithCancel(context.Background())
+	s, err := server.VerifNewTSOServer(ctx, cfg, st.Client(), uint64(id))
+	if err != nil {
+		cancel()
+		return nil, err
+	}
+	return &Srv{Server: s, ID: id, Cfg: cfg, cancel: cancel, tsoOnly: true}, nil
+}
+
+var cfgCache = map[int]*config.Config{}
+
+// cachedConfig returns a copy of a once-adjusted configuration (SetupLogger / Adjust are slow
+// and start a logger goroutine each time).
+func cachedConfig(id int) *config.Config {
+	c, ok := cfgCache[id]
+	if !ok {
+		c = NewConfig(id)
+		cfgCache[id] = c
+	}
+	cp := c.Clone()
+	cp.Labels = map[string]string{}
+	return cp
+}
+
 // Close stops the server and removes its scratch dir.
 func (s *Srv) Close() {
+	if s.tsoOnly {
+		s.VerifCloseTSO()
+		s.cancel()
+		return
+	}
 	s.VerifClose()
 	s.cancel()
 	os.RemoveAll(s.Cfg.DataDir)
